@@ -23,7 +23,7 @@ ASSUMPTIONS = ["Redis and RabbitMQ are wire-level fakes (RabbitMQ rule R2: per-m
                "the AMQP fake accepts per-message expirations of any size; a real RabbitMQ server is believed to refuse values above 2^32-1 ms (49.7 days) with a channel error, "
                "so what repid does for longer delays on RabbitMQ is judged here only as far as the fake goes (not verifiable offline)"]
 EVAL_COUNTER = "deliveries_judged"
-REQUIRED = ["deliveries_judged", "due_past", "due_subsecond", "due_seconds", "due_far", "visibility_probes", "multi_scenarios", "peek_scenarios", "peek_returns", "crowd_scenarios", "timezone_offset_runs", "busy_consumer_scenarios", "far_future_probes", "messages_put_back_with_a_new_time"]
+REQUIRED = ["deliveries_judged", "due_past", "due_subsecond", "due_seconds", "due_far", "visibility_probes", "multi_scenarios", "peek_scenarios", "peek_returns", "crowd_scenarios", "timezone_offset_runs", "busy_consumer_scenarios", "far_future_probes", "messages_put_back_with_a_new_time", "neighbour_queue_scenarios"]
 CASE_TIMEOUT = 120
 
 OFFSETS = [-5.0, -0.000001, 0.0004, 0.3, 0.9995, 1.0, 1.5, 5.0, 3600.0, 2592000.0]
@@ -75,6 +75,10 @@ def gen_cases(tier, seed):
         # delivered after a bounded number of further deliveries
         for backlog in (1, 3):
             cases.append({"type": "busy", "kind": kind, "backlog": backlog, "seed": rnd.randrange(10**6)})
+        # two queues in one process: a delayed message of a quiet queue becomes due while its consumer waits idle and the
+        # consumer of the other queue is kept busy by steady traffic
+        for due in ((1.3, 2.6) if tier == "quick" else (0.4, 1.3, 2.6, 5.05)):
+            cases.append({"type": "neighbour", "kind": kind, "due": due, "seed": rnd.randrange(10**6)})
         # due times months and years ahead: still not deliverable weeks later, deliverable when the day comes
         for days in ((60, 400) if tier == "quick" else (45, 60, 400, 3650)):
             cases.append({"type": "veryfar", "kind": kind, "days": days, "via": rnd.choice(VIAS[:2]), "seed": rnd.randrange(10**6), "latency": None if kind == "mem" else 0.003})
@@ -408,6 +412,71 @@ async def busy(loop, case, out, stats, fps):
         rig.close()
 
 
+async def neighbour(loop, case, out, stats, fps):
+    from repid.data._parameters import DelayProperties
+    from repid.message import MessageCategory
+    from rv.rigs import Rig, key_of
+
+    kind = case["kind"]
+    rig = Rig(kind, loop, latency=None, seed=case["seed"])
+    try:
+        conn = rig.make_connection("p1")
+        await conn.connect()
+        mb = conn.message_broker
+        for q in ("quiet", "busy"):
+            await mb.queue_declare(q)
+        P = mb.PARAMETERS_CLASS
+        quiet = mb.get_consumer("quiet", None, None, MessageCategory.NORMAL)
+        busy_c = mb.get_consumer("busy", None, None, MessageCategory.NORMAL)
+        await quiet.start()
+        await busy_c.start()
+        stop = asyncio.Event()
+
+        async def traffic():
+            n = 0
+            while not stop.is_set():
+                await mb.enqueue(key_of(conn, f"r{n:04d}", "t", "busy"), "p", P())
+                n += 1
+                try:
+                    key, _, _ = await asyncio.wait_for(busy_c.consume(), 5.0)
+                    await mb.ack(key)
+                except asyncio.TimeoutError:
+                    pass
+                await asyncio.sleep(0.03)
+            return n
+
+        tr = loop.create_task(traffic())
+        waiter = loop.create_task(quiet.consume())  # idle inside consume() before anything is enqueued
+        await asyncio.sleep(0.35)
+        T = datetime.now() + timedelta(seconds=case["due"])
+        await mb.enqueue(key_of(conn, "due", "t", "quiet"), "p", P(delay=DelayProperties(next_execution_time=T)))
+        got_at = None
+        try:
+            key, _, _ = await asyncio.wait_for(waiter, case["due"] + L_BOUND + 3.0)
+            got_at = datetime.now()
+            await mb.ack(key)
+        except asyncio.TimeoutError:
+            pass
+        stop.set()
+        n_busy = await tr
+        await quiet.finish()
+        await busy_c.finish()
+        stats["neighbour_queue_scenarios"] += 1
+        stats["deliveries_judged"] += 1
+        fps.add(f"{kind}/neighbour/{case['due']}")
+        if got_at is None:
+            out.append(V("late", kind, "idle-consumer-next-to-a-busy-queue", f"a message of queue 'quiet' due in {case['due']}s was not delivered to its waiting consumer within {L_BOUND}s after T, while the consumer of queue 'busy' "
+                                                                             f"(same broker object) handled {n_busy} messages; state {rig.snapshot().get('due')}"))
+        elif got_at < T - timedelta(milliseconds=1):
+            out.append(V("early", kind, "idle-consumer-next-to-a-busy-queue", f"delivered at {got_at}, due {T}"))
+        elif (got_at - T).total_seconds() > L_BOUND:
+            out.append(V("late", kind, "idle-consumer-next-to-a-busy-queue", f"delivered {(got_at - T).total_seconds():.3f}s after T"))
+        await conn.disconnect()
+        stats["unknown_server_commands"] += rig.unknown_commands()
+    finally:
+        rig.close()
+
+
 async def tz_smoke(loop, case, out, stats, fps):
     """Public API only, no arithmetic on the harness epoch: jobs deferred by 2 s and 3.5 s (deferred_until / deferred_by)
     run not before their time and within the bound, whatever the local time zone is."""
@@ -652,6 +721,10 @@ def run_case(case):
         res = vl.run(lambda loop: veryfar(loop, case, out, stats, fps), max_steps=6_000_000, seed=case["seed"])
         if res.exc is not None:
             out.append(V("harness_or_api_error", case["kind"], "veryfar", f"{type(res.exc).__name__}: {res.exc}"))
+    elif case["type"] == "neighbour":
+        res = vl.run(lambda loop: neighbour(loop, case, out, stats, fps), max_steps=6_000_000, seed=case["seed"])
+        if res.exc is not None:
+            out.append(V("harness_or_api_error", case["kind"], "neighbour", f"{type(res.exc).__name__}: {res.exc}"))
     elif case["type"] == "busy":
         res = vl.run(lambda loop: busy(loop, case, out, stats, fps), max_steps=6_000_000, seed=case["seed"])
         if res.exc is not None:
